@@ -25,6 +25,7 @@ RULE = (
     "fluids.pseudopressure. Non-trivial = a gas case whose extreme nodes are >= 50 psi apart, or a transform "
     "case with >= 3 rows. The builder's maximum pressure is a float, or a whole number handed over as Python / numpy int or by "
     "keyword. Distinct = hash of the case record."
+    " Float64 ndarray transform cases also build a table with one node listed twice (properties of either side of a discontinuity) and hand it over bottom-up and top-down."
 )
 ASSUMPTIONS = [
     "quadrature accuracy: the two tabulated routes use the trapezoid rule on a 10-psi grid; the admissible gap to the adaptive quadrature is 5x the trapezoid error estimated from the table's own second differences of 2p/(mu Z), plus 1e-6 relative",
@@ -147,6 +148,25 @@ def check_case(case) -> Result:
         want = np.concatenate([[0.0], np.cumsum(0.5 * (f[1:] + f[:-1]) * np.diff(p))])
         if m[0] != 0.0:
             res.bad("C08/zero-at-reference", f"fluids.pseudopressure: value at the first pressure is {m[0]!r}")
+        if pdt == "float64" and case["container"] == "ndarray" and n >= 4:
+            # a table with a doubled node (a dew-point / phase-boundary discontinuity: the same pressure listed twice with
+            # the properties of either side), listed bottom-up and top-down: the transform is the running trapezoid
+            # along the listed rows, so differences between rows are the integral of the piecewise-linear integrand
+            # with its jump, zero at the first listed row, whatever the direction of the listing
+            k = n // 2
+            p2 = np.concatenate([p[: k + 1], p[k:]])
+            mu2 = np.concatenate([mu[: k + 1], mu[k:] * 1.25])
+            z2 = np.concatenate([z[: k + 1], z[k:] * 1.06])
+            for label, order in (("bottom-up", slice(None)), ("top-down", slice(None, None, -1))):
+                pp, mm, zz = p2[order].copy(), mu2[order].copy(), z2[order].copy()
+                got = np.asarray(lib(f"fluids.pseudopressure(doubled node, {label})", F.pseudopressure, pp, mm, zz), float)
+                ff = 2 * pp / (mm * zz)
+                ref = np.concatenate([[0.0], np.cumsum(0.5 * (ff[1:] + ff[:-1]) * np.diff(pp))])
+                if got.shape != ref.shape:
+                    res.bad("C08/transform-shape", f"doubled node, {label}: shape {got.shape} for {ref.shape}")
+                    break
+                res.check("C08/transform-with-a-doubled-node", float(np.max(np.abs(got - ref))), 1e-12 * float(np.max(np.abs(ref))), f"table of {len(pp)} rows with the node {p[k]!r} listed twice (viscosity x1.25, Z x1.06 above it), {label}: running trapezoid along the listed rows;")
+            res.labels["doubled_node"] = True
         err = np.abs(m - want)
         res.check("C08/transform-is-trapezoid-of-2p-over-muZ", float(np.max(err / np.maximum(np.abs(want), 1e-300))) if n > 1 else 0.0, 1e-5 if pdt == "float32" else 1e-12, f"fluids.pseudopressure vs trapezoid of 2p/(mu Z) on a {case['grid']} grid of {n} rows ({case['family']});")
         if not np.all(np.diff(m) > 0):
